@@ -15,6 +15,8 @@ CORPUS = [
 F10 = 'F10-struct-output-written-by-field'
 F17 = 'F17-negative-step-loop-wraps'
 _F10_EXPECT = ('multi-driver', 'undriven', 'output-mismatch')
+F20 = 'F20-yosys-2d-list-of-interfaces-or-subcomponents-transposed'
+F21 = 'F21-verilog-2d-port-list-of-listed-subcomponent'
 _FL = '@bitstruct\nclass Fl:\n  a: Bits4\n  b: Bits4\n\n'
 WITNESSES = [
   {'label': F17 + ':witness', 'finding': F17, 'variant': None, 'expect': ('loop-overrun', 'output-mismatch'), 'backends': ('verilog',),
@@ -49,4 +51,33 @@ WITNESSES = [
           '    @update\n    def lb():\n      s.o @= s.p.a + 1\n\n'
           'class Top( Component ):\n  def construct( s ):\n    s.p = InPort( Fl )\n    s.o = [ OutPort( Bits4 ) for _ in range(2) ]\n'
           '    s.l = [ Leaf() for _ in range(2) ]\n    for i in range(2):\n      s.l[i].p //= s.p\n      s.o[i] //= s.l[i].o\n'},
+  {'label': F20 + ':subcomponent:witness', 'finding': F20, 'variant': 'subcomponent', 'backends': ('yosys',),
+   'expect': ('multi-driver', 'undriven', 'output-mismatch', 'syntax-invalid'), 'features': ['finding-stream'],
+   'cycles': [{'.a[0][0]': 1, '.a[0][1]': 2, '.a[0][2]': 3, '.a[1][0]': 4, '.a[1][1]': 5, '.a[1][2]': 6, '.reset': 0}],
+   'src': 'from pymtl3 import *\n'
+          'class Sub( Component ):\n  def construct( s, k ):\n    s.in_ = InPort( Bits4 )\n    s.out = OutPort( Bits4 )\n'
+          '    @update\n    def sb():\n      s.out @= s.in_ + k\n\n'
+          'class Top( Component ):\n  def construct( s ):\n    s.a = [ [ InPort( Bits4 ) for _ in range(3) ] for _ in range(2) ]\n'
+          '    s.o = [ [ OutPort( Bits4 ) for _ in range(3) ] for _ in range(2) ]\n'
+          '    s.c = [ [ Sub( i * 3 + j ) for j in range(3) ] for i in range(2) ]\n'
+          '    for i in range(2):\n      for j in range(3):\n        s.c[i][j].in_ //= s.a[i][j]\n        s.o[i][j] //= s.c[i][j].out\n'},
+  {'label': F20 + ':interface:witness', 'finding': F20, 'variant': 'interface', 'backends': ('yosys',),
+   'expect': ('multi-driver', 'undriven', 'output-mismatch', 'syntax-invalid'), 'features': ['finding-stream'],
+   'cycles': [{'.ifc[0][0].msg': 1, '.ifc[0][1].msg': 2, '.ifc[0][2].msg': 3, '.ifc[1][0].msg': 4, '.ifc[1][1].msg': 5, '.ifc[1][2].msg': 6,
+               '.ifc[0][0].val': 0, '.ifc[0][1].val': 0, '.ifc[0][2].val': 1, '.ifc[1][0].val': 0, '.ifc[1][1].val': 0, '.ifc[1][2].val': 0, '.reset': 0}],
+   'src': 'from pymtl3 import *\n'
+          'class GIfc( Interface ):\n  def construct( s, T ):\n    s.msg = InPort( T )\n    s.val = InPort()\n    s.rdy = OutPort()\n\n'
+          'class Top( Component ):\n  def construct( s ):\n    s.ifc = [ [ GIfc( Bits4 ) for _ in range(3) ] for _ in range(2) ]\n'
+          '    s.o = OutPort( Bits4 )\n    @update\n    def up():\n      s.o @= s.ifc[1][2].msg\n'
+          '      for i in range(2):\n        for j in range(3):\n          s.ifc[i][j].rdy @= s.ifc[i][j].val\n'},
+  {'label': F21 + ':witness', 'finding': F21, 'variant': None, 'backends': ('verilog',),
+   'expect': ('multi-driver', 'undriven', 'output-mismatch', 'syntax-invalid'), 'features': ['finding-stream'],
+   'cycles': [{'.x': 5, '.reset': 0}],
+   'src': 'from pymtl3 import *\n'
+          'class Sub( Component ):\n  def construct( s ):\n    s.in0 = [ [ InPort( Bits4 ) for _ in range(3) ] for _ in range(2) ]\n'
+          '    s.out = OutPort( Bits4 )\n    @update\n    def sb():\n      s.out @= s.in0[0][2]\n\n'
+          'class Top( Component ):\n  def construct( s ):\n    s.x = InPort( Bits4 )\n    s.o = [ OutPort( Bits4 ) for _ in range(2) ]\n'
+          '    s.c = [ Sub(), Sub() ]\n    for i in range(2):\n      for j in range(3):\n        s.c[0].in0[i][j] //= 0\n'
+          '    @update\n    def up():\n      for i in range(2):\n        for j in range(3):\n          s.c[1].in0[i][j] @= s.x\n'
+          '    s.o[0] //= s.c[0].out\n    s.o[1] //= s.c[1].out\n'},
 ]
